@@ -574,7 +574,20 @@ class Ovld:
     def unregister(self, fn):
         """Unregister a function."""
         self._attempt_modify()
-        self._defns = {sig: f for sig, f in self._defns.items() if f is not fn}
+        defns = {}
+        depth = {}
+        # Methods that had been pushed down by the removed one move back up,
+        # so that the remaining one still overrides a mixin's method with
+        # the same signature
+        for sig, f in sorted(
+            self._defns.items(), key=lambda kv: -kv[0].tiebreak
+        ):
+            if f is not fn:
+                base = replace(sig, tiebreak=0)
+                tiebreak = depth.get(base, 0)
+                depth[base] = tiebreak - 1
+                defns[replace(base, tiebreak=tiebreak)] = f
+        self._defns = defns
         self._update()
 
     def _update(self):
